@@ -80,10 +80,11 @@ func contentOf(data []byte, withZip bool) string {
 	if withZip {
 		zn = ZipNames(data)
 	}
-	if len(data) <= BufSize {
+	hl := HeadLen(data)
+	if len(data) <= hl {
 		return fmt.Sprintf("= %s %d %s", hx.Hex(data), len(data), zn)
 	}
-	tail := data[BufSize:]
+	tail := data[hl:]
 	constant := true
 	for _, b := range tail {
 		if b != tail[0] {
@@ -92,16 +93,13 @@ func contentOf(data []byte, withZip bool) string {
 		}
 	}
 	if constant {
-		return fmt.Sprintf("pad:%d:%02x %s %d %s", len(tail), tail[0], hx.Hex(data[:BufSize]), len(data), zn)
+		return fmt.Sprintf("pad:%d:%02x %s %d %s", len(tail), tail[0], hx.Hex(data[:hl]), len(data), zn)
 	}
-	return fmt.Sprintf("tail:%s %s %d %s", hex.EncodeToString(tail), hx.Hex(data[:BufSize]), len(data), zn)
+	return fmt.Sprintf("tail:%s %s %d %s", hex.EncodeToString(tail), hx.Hex(data[:hl]), len(data), zn)
 }
 
 func srcContent(src string, data []byte) string {
-	n := len(data)
-	if n > BufSize {
-		n = BufSize
-	}
+	n := HeadLen(data)
 	return fmt.Sprintf("%s %s %d %s", src, hx.Hex(data[:n]), len(data), ZipNames(data))
 }
 
@@ -323,7 +321,7 @@ func (e *emitter) builders() {
 	mp.Is64 = !mp.Is64
 	e.file("g", contentOf(macho.Build(r, mp, nil), true), "mach-o")
 	// PE images whose header lies deep in the file (large DOS stub) and further MZ-probe boundaries
-	for _, lf := range []int{64, 128, 256, 264, 4080, 4088, 4092, 4093, 4096, 4104, 8192, 65528, 65536 + 128} {
+	for _, lf := range []int{64, 128, 256, 264, 4080, 4088, 4096, 4104, 8192, 32768, 65520, 65528, 65536, 65536 + 128} {
 		p := pe.Params{Machine: 0x14c, StubLen: lf - 64, NumDirs: 16, FileAlign: 512, Sections: []int{512}}
 		if lf > 4000 {
 			p.HdrSlack = (lf + 1024) / 512
@@ -604,7 +602,7 @@ func (e *emitter) random() {
 	if hx.Tier() == "thorough" {
 		n = 3000
 	}
-	lens := []int{0, 1, 2, 3, 4, 5, 8, 13, 14, 15, 61, 62, 63, 64, 255, 256, 257, 261, 262, 263, 300, 4095, 4096, 4097, 5000}
+	lens := []int{0, 1, 2, 3, 4, 5, 8, 13, 14, 15, 61, 62, 63, 64, 255, 256, 257, 261, 262, 263, 300, 4095, 4096, 4097, 5000, 5000, 5000, 65539, 65541}
 	for i := 0; i < n; i++ {
 		b := r.Bytes(lens[r.Intn(len(lens))])
 		if r.Intn(3) > 0 && len(b) > 0 {
@@ -626,7 +624,7 @@ func (e *emitter) random() {
 			}
 		}
 		if len(b) >= 0x40 && b[0] == 'M' && b[1] == 'Z' && r.Bool() {
-			lf := r.Pick(0x40, 0x80, 4092, 4093, len(b)-4, len(b)-3)
+			lf := r.Pick(0x40, 0x80, 4092, 4093, 65535, len(b)-4, len(b)-3)
 			if lf >= 0 && lf+4 <= len(b) {
 				binary.LittleEndian.PutUint32(b[0x3c:], uint32(lf))
 				copy(b[lf:], "PE\x00\x00")
